@@ -112,6 +112,12 @@ func (x *Exec) defaultTerm(d defSrc, key string, sort Sort, below int) Term {
 				ft = implies(g, ft)
 			}
 			x.c.AddFactAbout(t.S, tTrue, ft, "frame: only fresh objects written in "+key)
+			if gx, ok := x.genGuardsX[g]; ok {
+				if excl := x.rootExcl(key); len(excl) > 0 {
+					fx := fmt.Sprintf("(forall ((r Int)) (! (=> (and (<= r %s) %s) (= (select %s r) (select %s r))) :pattern ((select %s r))))", fa.S, strings.Join(excl, " "), t.S, prev.S, t.S)
+					x.c.AddFactAbout(t.S, tTrue, implies(gx, Term{S: fx, Sort: SBool, N: 12, UB: -1}), "frame: only fresh objects and the contract's frame written in "+key)
+				}
+			}
 		}
 	}
 	return t
@@ -192,6 +198,7 @@ type Exec struct {
 	exitPos  token.Pos
 	genFrames map[int]Term // default-array generations created by fresh-only callees: old allocation counter
 	genGuards map[int]Term // generations whose frame is a Houdini candidate: its guard literal
+	genGuardsX map[int]Term // ... and the guard of the variant that excepts the contract's frame
 }
 
 type candidate struct {
@@ -214,6 +221,7 @@ type loopInfo struct {
 	rangeVar map[string]*ssa.Alloc // source name -> rangeindex alloc (value is rangeindex+1)
 	modKeys  *modSet
 	prefixGuards map[string]Term // per havocked key prefix: guard of the frame of late-accessed arrays
+	prefixGuardsX map[string]Term // ... excepting the objects in the entry contract's frame
 	headKeys map[string]bool     // heap keys known when the loop head was reached
 }
 
